@@ -14,6 +14,12 @@ impl LZ10CompressionFormat {
     }
 
     pub fn compress(&self, bytes: &[u8]) -> Result<Vec<u8>> {
+        // The header stores the input length in 24 bits.
+        if bytes.len() > 0xFFFFFF {
+            return Err(CompressionError::InvalidInput(
+                "LZ10 input must be shorter than 16 MiB".to_string(),
+            ));
+        }
         let mut buf: Vec<u8> = Vec::new();
         buf.push(0x10);
         buf.push((bytes.len() & 0xFF) as u8);
